@@ -165,24 +165,63 @@ Definition deadlock_trace : list label :=
    LC SIdle; LC SLock; LC SHold; LC SSet1a;
    LR; LR; LR].
 
+Lemma ex_of_check : forall (o : option state) (chk : state -> bool),
+  match o with Some s => chk s | None => false end = true -> exists s, o = Some s /\ chk s = true.
+Proof. intros [s|] chk H; [exists s; auto|discriminate]. Qed.
+
+Definition dead_check (s : state) : bool :=
+  inflight s && negb (can_step pinned cfg_assert s) && (cnt s SSend =? 1) && (cnt s SWait =? 1)
+  && rpc_beq (runner s) RLock1 && lock s.
+
 Lemma pinned_deadlocks_lemma :
   exists s, exec pinned cfg_assert (init 2 1) deadlock_trace = Some s /\
             inflight s = true /\ can_step pinned cfg_assert s = false /\
             cnt s SSend = 1 /\ cnt s SWait = 1 /\ runner s = RLock1 /\ lock s = true.
-Proof. eexists. vm_compute. repeat split; reflexivity. Qed.
+Proof.
+  destruct (ex_of_check (exec pinned cfg_assert (init 2 1) deadlock_trace) dead_check) as (s & Hs & Hc);
+    [vm_compute; reflexivity|].
+  exists s. split; [exact Hs|]. unfold dead_check in Hc.
+  repeat (apply Bool.andb_true_iff in Hc; destruct Hc as [Hc ?]).
+  repeat split; auto.
+  - apply Bool.negb_true_iff; assumption.
+  - apply Nat.eqb_eq; assumption.
+  - apply Nat.eqb_eq; assumption.
+  - apply internal_rpc_dec_bl; assumption.
+Qed.
 
 Definition cfg_done : config :=
   mkCfg (fun _ => mkAtt 0 (WEnd EDone) []) false [false] 0 false 0 (fun _ => 0).
 Definition one_run : list label := [LC RIdle; LC RLock; LC RHold; LC RUnlGo; LR; LR; LR; LR; LR; LR; LR; LR; LR].
+(* the second time close(awaitExit) panics, so `requestExit = nil` is skipped: one step fewer *)
+Definition second_run : list label := [LC RIdle; LC RLock; LC RHold; LC RUnlGo; LR; LR; LR; LR; LR; LR; LR; LR].
+
+Definition inst_list_beq (a b : list inst) : bool := if list_eq_dec inst_eq_dec a b then true else false.
+Definition twice_check (s : state) : bool :=
+  (entered s =? 2) && inst_list_beq (closed s) [ILeaf 0; ILeaf 0] && (awaitc s =? 2).
 
 Lemma pinned_runs_twice_lemma :
-  exists s, exec pinned cfg_done (init 0 2) (one_run ++ one_run) = Some s /\
+  exists s, exec pinned cfg_done (init 0 2) (one_run ++ second_run) = Some s /\
             entered s = 2 /\ closed s = [ILeaf 0; ILeaf 0] /\ awaitc s = 2.
-Proof. eexists. vm_compute. repeat split; reflexivity. Qed.
+Proof.
+  destruct (ex_of_check (exec pinned cfg_done (init 0 2) (one_run ++ second_run)) twice_check) as (s & Hs & Hc);
+    [vm_compute; reflexivity|].
+  exists s. split; [exact Hs|]. unfold twice_check in Hc.
+  repeat (apply Bool.andb_true_iff in Hc; destruct Hc as [Hc ?]).
+  repeat split.
+  - apply Nat.eqb_eq; assumption.
+  - unfold inst_list_beq in *. destruct (list_eq_dec inst_eq_dec (closed s) [ILeaf 0; ILeaf 0]); [assumption|discriminate].
+  - apply Nat.eqb_eq; assumption.
+Qed.
 
-(* the same schedules are not executions of the repaired code *)
+Definition once_check (s : state) : bool :=
+  (cnt s RRefused =? 1) && (entered s =? 1) && inst_list_beq (closed s) [ILeaf 0] && (awaitc s =? 1).
+
+(* the same schedules are not executions of the repaired code: the second Stop does not send, the second Run is refused *)
 Lemma repaired_rejects_traces :
   exec repaired cfg_assert (init 2 1) deadlock_trace = None /\
   (exists s, exec repaired cfg_done (init 0 2) (one_run ++ [LC RIdle; LC RLock; LC RHold; LC RUnlRefuse]) = Some s /\
-             cnt s RRefused = 1 /\ entered s = 1 /\ closed s = [ILeaf 0] /\ awaitc s = 1).
-Proof. split; [vm_compute; reflexivity|]. eexists. vm_compute. repeat split; reflexivity. Qed.
+             once_check s = true).
+Proof.
+  split; [vm_compute; reflexivity|].
+  apply ex_of_check. vm_compute. reflexivity.
+Qed.
